@@ -894,6 +894,9 @@ def r3_precedence(run):
     for q, tag in (('falcon.response.Response.render_body', 'Response.render_body'),
                    ('falcon.asgi.response.Response.render_body', 'asgi.Response.render_body')):
         f = p.func(q)
+        run.use(f)
+        # a same-class helper that renders / caches the media (`data = self._render_media()`) is read as its body
+        f = inline_view(p, f)
         _precedence(run, f, 'self', f.node.body, tag)
     a = AsgiCall(run)
     # the inlined copy of render_body lives in the body of the render try
@@ -3047,6 +3050,11 @@ def r11_media_render(run):
     n_calls = 0
     for q in RENDER_SIBLINGS:
         f = p.func(q)
+        run.use(f)
+        if q != ASGI_CALL:
+            # the cache protocol spread over render_body and a same-class helper it calls (`self._render_media()` that tests /
+            # fills the cache itself, `self._media_rendered = self._serialize_media()`) is read on the inlined body
+            f = inline_view(p, f)
         cfg = cfg_of(f, p)
         run.use_cfg(cfg)
         ix = Index(cfg)
